@@ -1,13 +1,12 @@
-import TinsModel.Wire.Icmp.Family
-import TinsModel.Basic.CursorLemmas
-import TinsModel.Basic.CodecLemmas
-import TinsModel.Wire.ChainLemmas
-import TinsModel.Wire.IfaceLemmas
+import TinsModel.Wire.Icmp.ThFamily
 /-
-  Per-layer theorems of the Icmp family for the four wire properties (C01 parse_safe, C02 writesOnly,
-  C03 reparse, C04 codec inverses).  See TinsModel/Wire/Transport/Theorems.lean for the worked example (UDP).
--/
-namespace Tins.Wire.Icmp
-open Tins Tins.Wire
+  Per-layer and family-level theorems of the Icmp family for the four wire properties.  Index:
 
-end Tins.Wire.Icmp
+  Lemmas.lean        outcome predicates of parsing steps (`ParseSafe`, `Good`, `GoodV`) and their sequencing rules; closed forms
+                     of the stream operations; "only these bytes change" (`window`) facts
+  ThExt.lean         C01: ICMPExtension / ICMPExtensionsStructure parsing, validate_extensions, try_parse_icmp_extensions
+  ThExtWrite.lean    C02: ICMPExtensionsStructure::size() is exact, serialize touches only its own bytes, RFC 4884 padding
+  ThIcmp.lean        C01 + invariant: ICMP          ThIcmpWrite.lean  C02: ICMP         ThIcmpApi.lean   C04: API keeps the invariant
+  ThIcmp6.lean       C01 + invariant: ICMPv6        ThIcmp6Write.lean C02: ICMPv6       ThIcmp6Api.lean  C04: API keeps the invariant
+  ThFamily.lean      icmp_family_parse_safe, _parse_consumes, _parse_inv, _writesOnlyAt, _mk_inv, _apply_inv
+-/
